@@ -109,7 +109,11 @@ CLAIMED = {
              "attached under the new name with its value, a superseded attribute's object is detached with its value. "
              "Equality of two collections (elements with different namespaces in scope) is proved equivalent to their "
              "dictionaries of reported names having the same entries; comparison with a plain mapping to dictionary lookup "
-             "of every key (and to equality of entries when the keys denote different attributes). Tie to code: random "
+             "of every key (and to equality of entries when the keys denote different attributes). Names given as strings: "
+             "deconstruct_clark_notation is modelled (deconstructClark) and probed on /repo on every run (translator "
+             "obligation c11_clark_probes); '{ns}name' reads as the pair (ns, name) for every namespace incl. the empty one, "
+             "a string without a leading brace is a local name, and the Clark string reaches the same entry as the pair on "
+             "every element (c11_clark_notation, c11_plain_name, c11_clark_string_same_entry). Tie to code: random "
              "operation sequences through the mapping, node subscripts and held Attribute objects on nine element contexts, "
              "real results == compiled model after every step; pairs of collections compared in both orders; a plain dict "
              "and a record per held object as property oracle, checked after every step.",
